@@ -840,7 +840,11 @@ func (cfg *Config) quotedElemFields(pe *syntax.ParamExp) ([]string, error) {
 	if pe.Excl {
 		switch pe.Names {
 		case syntax.NamesPrefixWords: // "${!prefix@}"
-			return cfg.namesByPrefix(pe.Param.Value), nil
+			names := cfg.namesByPrefix(pe.Param.Value)
+			if names == nil {
+				names = []string{} // no fields at all, rather than an empty one
+			}
+			return names, nil
 		case syntax.NamesPrefix: // "${!prefix*}"
 			return nil, nil
 		}
